@@ -104,9 +104,19 @@ func (t *memTransport) RoundTrip(req *http.Request) (*http.Response, error) {
 	if sreq.Body == nil {
 		sreq.Body = http.NoBody
 	}
+	// Like a connection, the transport keeps taking what the client writes (one chunk ahead of the
+	// handler, as socket buffers would): a client write never waits for the handler to ask for more
+	// than that, and a zero-length write never waits at all.
+	var pumpStop func()
+	if sreq.Body != http.NoBody {
+		sreq.Body, pumpStop = pumpBody(sreq.Body)
+	}
 	t.handlerWG.Add(1)
 	go func() {
 		defer t.handlerWG.Done()
+		if pumpStop != nil {
+			defer pumpStop()
+		}
 		defer func() {
 			if p := recover(); p != nil {
 				rw.WriteHeader(500)
@@ -242,3 +252,36 @@ func (p *panicSet) add(s string) {
 }
 
 var panicsSeen panicSet
+
+// pumpBody copies src, chunk by chunk, into a pipe the handler reads from. stop ends the copying
+// (the handler has returned); src itself is left open, as before.
+func pumpBody(src io.ReadCloser) (io.ReadCloser, func()) {
+	pr, pw := io.Pipe()
+	go func() {
+		buf := make([]byte, 16<<10)
+		for {
+			n, err := src.Read(buf)
+			if n > 0 {
+				if _, werr := pw.Write(buf[:n]); werr != nil {
+					return
+				}
+			}
+			if err != nil {
+				pw.CloseWithError(err) // io.EOF stays io.EOF
+				return
+			}
+		}
+	}()
+	return &pumpedBody{pr: pr, src: src}, func() { pr.CloseWithError(io.ErrClosedPipe) }
+}
+
+type pumpedBody struct {
+	pr  *io.PipeReader
+	src io.ReadCloser
+}
+
+func (b *pumpedBody) Read(p []byte) (int, error) { return b.pr.Read(p) }
+func (b *pumpedBody) Close() error {
+	b.pr.CloseWithError(io.ErrClosedPipe)
+	return b.src.Close()
+}
